@@ -101,6 +101,26 @@ def is_pointer(n):
     return bool(n.get("tp"))
 
 
+def mask_outcomes(maskdef, values=None, excluded=None):
+    """[(condition, truth)] every value the mask local can still hold agrees on: the local is the OR of K_i where condition i
+    holds (facts.Function maskdefs); `values` restricts it to those values, `excluded` removes values"""
+    dom = [0]
+    for _, kv in maskdef:
+        dom = dom + [v | kv for v in dom]
+    if values is not None:
+        dom = [v for v in dom if v in values]
+    if excluded is not None:
+        dom = [v for v in dom if v not in excluded]
+    if not dom:
+        return None                  # no value left: the edge is infeasible
+    out = []
+    for c, kv in maskdef:
+        bits = {bool(v & kv) for v in dom}
+        if len(bits) == 1:
+            out.append((c, bits.pop()))
+    return out
+
+
 def implied(cond, truth):
     """Set of facts ('nn'|'null', path) implied when `cond` evaluates to `truth`.
     Also yields ('eq'|'ne', path, const) for integer comparisons against constants and
@@ -111,6 +131,30 @@ def implied(cond, truth):
     k = n.get("k")
     if k == "un" and n.get("op") == "!":
         return implied(n["ch"][0], not truth)
+    if k == "ref" and n.get("maskdef") is not None:
+        oc = mask_outcomes(n["maskdef"], excluded={0}) if truth else mask_outcomes(n["maskdef"], values={0})
+        res = set()
+        for c_, t_ in (oc or ()):
+            res |= implied(c_, t_)
+        return res
+    if k == "bin" and n.get("op") == "&" and (strip(n["ch"][0]) or {}).get("maskdef") is not None and const_val(n["ch"][1]) is not None:
+        md, kv = strip(n["ch"][0])["maskdef"], const_val(n["ch"][1])
+        dom = [0]
+        for _, k_ in md:
+            dom = dom + [v | k_ for v in dom]
+        oc = mask_outcomes(md, values={v for v in dom if bool(v & kv) == truth})
+        res = set()
+        for c_, t_ in (oc or ()):
+            res |= implied(c_, t_)
+        return res
+    if k == "bin" and n.get("op") in ("==", "!=") and (strip(n["ch"][0]) or {}).get("maskdef") is not None and const_val(n["ch"][1]) is not None:
+        md, cv = strip(n["ch"][0])["maskdef"], const_val(n["ch"][1])
+        eq = (n["op"] == "==") == truth
+        oc = mask_outcomes(md, values={cv}) if eq else mask_outcomes(md, excluded={cv})
+        res = set()
+        for c_, t_ in (oc or ()):
+            res |= implied(c_, t_)
+        return res
     if k == "ref" and n.get("flagdef") is not None:
         # a flag local that stands for a condition (facts.Function._find_flagdefs)
         p = apath(n)
